@@ -334,11 +334,23 @@ func (s *keystore) put(ctx context.Context, keys []mh.Multihash) ([]mh.Multihash
 
 // get returns all keys whose bit256 representation matches the provided
 // prefix.
+// queryKey returns the datastore key below which every stored key matching
+// prefix is filed. Only the first prefixBits bits of prefix take part: dsKey
+// completes a full-length key with its base64 suffix, and a datastore query
+// only returns strict descendants of its prefix, so a 256-bit prefix passed to
+// dsKey as is would never match the key it spells out.
+func (s *keystore) queryKey(prefix bitstr.Key) string {
+	if prefix.BitLen() > s.prefixBits {
+		prefix = prefix[:s.prefixBits]
+	}
+	return dsKey(prefix, s.prefixBits).String()
+}
+
 func (s *keystore) get(ctx context.Context, prefix bitstr.Key) ([]mh.Multihash, error) {
 	out := make([]mh.Multihash, 0)
 	longPrefix := prefix.BitLen() > s.prefixBits
 
-	dsk := dsKey(prefix, s.prefixBits).String()
+	dsk := s.queryKey(prefix)
 	q := query.Query{Prefix: dsk}
 	for r, err := range ds.QueryIter(ctx, s.ds, q) {
 		if err != nil {
@@ -369,7 +381,7 @@ func (s *keystore) get(ctx context.Context, prefix bitstr.Key) ([]mh.Multihash, 
 // is large; a non-positive limit counts every match.
 func (s *keystore) countUpTo(ctx context.Context, prefix bitstr.Key, limit int) (int, error) {
 	longPrefix := prefix.BitLen() > s.prefixBits
-	dsk := dsKey(prefix, s.prefixBits).String()
+	dsk := s.queryKey(prefix)
 	q := query.Query{Prefix: dsk, KeysOnly: true}
 	if limit > 0 && !longPrefix {
 		// Every key under the datastore prefix matches, so the datastore can stop
@@ -404,7 +416,7 @@ func (s *keystore) countUpTo(ctx context.Context, prefix bitstr.Key, limit int) 
 // multihash whose kademlia identifier (bit256.Key) starts with the provided
 // bit-prefix.
 func (s *keystore) containsPrefix(ctx context.Context, prefix bitstr.Key) (bool, error) {
-	dsk := dsKey(prefix, s.prefixBits).String()
+	dsk := s.queryKey(prefix)
 	q := query.Query{Prefix: dsk, KeysOnly: true}
 	longPrefix := prefix.BitLen() > s.prefixBits
 	if !longPrefix {
